@@ -1,29 +1,31 @@
 #!/venv/bin/python
-"""Re-evaluates every seeded change: applies seeded/<id>/patch.diff to /repo, runs the quick tier of the checks named in
+"""Re-evaluates every seeded change: applies seeded/<id>/patch.diff to /repo (or to the worktree named by REEVAL_REPO), runs the quick tier of the checks named in
 meta.json['caught_by_checks'], requires exit 1 with a VIOLATION line from at least one of them, reverts /repo.
 usage: reeval_seeded.py [id-substring]      (never run while another check uses /repo)"""
 import sys, os, json, glob, subprocess, time
 sel = sys.argv[1] if len(sys.argv) > 1 else ""
+REPO = os.environ.get("REEVAL_REPO", "/repo")     # a scratch worktree of /repo at its HEAD keeps /repo itself free
+ENV = dict(os.environ, EON_REPO=REPO)
 res = []
 for f in sorted(glob.glob("/verif/seeded/*/meta.json")):
     m = json.load(open(f))
     if sel not in m["id"]:
         continue
     d = os.path.dirname(f)
-    if subprocess.run(["git", "-C", "/repo", "diff", "--quiet", "--", "EoN"]).returncode != 0:
-        print("/repo not clean"); sys.exit(3)
-    if subprocess.run(["git", "-C", "/repo", "apply", os.path.join(d, "patch.diff")], capture_output=True).returncode != 0:
+    if subprocess.run(["git", "-C", REPO, "diff", "--quiet", "--", "EoN"]).returncode != 0:
+        print(REPO + " not clean"); sys.exit(3)
+    if subprocess.run(["git", "-C", REPO, "apply", os.path.join(d, "patch.diff")], capture_output=True).returncode != 0:
         res.append((m["id"], "PATCH-DOES-NOT-APPLY", "")); continue
     caught = []
     t0 = time.time()
     try:
         for c in m["caught_by_checks"]:
             p = subprocess.run(["/venv/bin/python", "-m", "eonmc.runner", c, "--tier", "quick", "--no-evidence"], cwd="/verif",
-                               capture_output=True, text=True, timeout=1800)
+                               capture_output=True, text=True, timeout=1800, env=ENV)
             if p.returncode == 1 and "VIOLATION property=" in p.stdout:
                 caught.append(c)
     finally:
-        subprocess.run(["git", "-C", "/repo", "checkout", "--", "EoN"])
+        subprocess.run(["git", "-C", REPO, "checkout", "--", "EoN"])
     res.append((m["id"], "caught" if caught else "MISSED", ",".join(caught)))
     print("%-10s %-8s by %-12s (%.0fs)" % (m["id"], res[-1][1], res[-1][2], time.time() - t0), flush=True)
 missed = [r for r in res if r[1] != "caught"]
